@@ -47,6 +47,9 @@ struct vs_config {
   uint64_t (*shared_hash)(void* ctx);
   // Called when a managed thread is about to be created, with the start-routine argument (may be NULL).
   void (*on_thread_create)(void* ctx, void* arg);
+  // Extra scheduling point right AFTER every mutex unlock commits: exposes code that touches shared
+  // state (e.g. std::atomic flags, which are not intercepted) just after leaving a critical section.
+  int yield_after_unlock;
   int spurious_budget;     // max spurious wake-ups injected in this execution
   long max_steps;          // livelock guard
   long nproc;              // value returned by the intercepted sysconf(_SC_NPROCESSORS_ONLN)
